@@ -22,13 +22,14 @@ var (
 func catalogues() map[string][]gen.Atom {
 	atomOnce.Do(func() {
 		atomCats = map[string][]gen.Atom{
-			"operator": gen.OperatorAtoms(),
-			"shift":    gen.ShiftAtoms(),
-			"conv":     gen.ConversionAtoms(),
-			"assign":   gen.AssignAtoms(),
-			"compare":  gen.CompareAtoms(),
-			"builtin":  gen.BuiltinAtoms(),
-			"access":   gen.AccessAtoms(),
+			"operator":   gen.OperatorAtoms(),
+			"shift":      gen.ShiftAtoms(),
+			"conv":       gen.ConversionAtoms(),
+			"assign":     gen.AssignAtoms(),
+			"compare":    gen.CompareAtoms(),
+			"builtin":    gen.BuiltinAtoms(),
+			"access":     gen.AccessAtoms(),
+			"constgroup": gen.ConstGroupAtoms(),
 		}
 	})
 	return atomCats
